@@ -123,6 +123,8 @@ def report(pid, tier, seed, H, recs, wall):
         for g in r["goals"]:
             gid = "%s/%s" % (r["name"], g["goal"])
             v = g["verdict"]
+            if os.environ.get("SYMX_VERBOSE"):
+                print("  [%s] %s %ss %s" % (v, gid, g.get("time"), g.get("engine")))
             if v in ("reachable",):
                 continue
             n_goals += 1
@@ -188,7 +190,7 @@ def report(pid, tier, seed, H, recs, wall):
             "harness_errors": len(herrs),
             "inconclusive_list": [u[0] for u in unknowns][:60],
             "functions_encoded": funcs,
-            "bounds": meta.get("bounds", {}).get(tier, meta.get("bounds")),
+            "bounds": (meta.get("bounds", {}).get(tier) if isinstance(meta.get("bounds"), dict) else meta.get("bounds")),
             "outside_the_claim": meta.get("outside", []),
             "stubs": meta.get("stubs", []),
             "solver_time_s": round(solver_s, 2), "engines": engines,
